@@ -141,3 +141,92 @@ def check_render(run, info, n_bodies, tag):
             run.violation("correspondence", "renderer model and write_to_string write different tokens for %r: at token %d the model has %r, the renderer %r" % (
                 t[:100], j, b[j:j + 3], a[j:j + 3]), {"input": {"text": t}, "rendered": rendered[i]}, no_input=True)
     return compared
+
+
+DVOC = [kw("VAR"), kw("VAR_INPUT"), kw("VAR_OUTPUT"), kw("VAR_IN_OUT"), kw("VAR_EXTERNAL"), kw("END_VAR"), kw("CONSTANT"), kw("RETAIN"),
+        kw("NON_RETAIN"), kw("R_EDGE"), kw("F_EDGE"), kw("BOOL"), kw("INT"), kw("TOD"), kw("LREAL"), ident("d1"), ident("T2"), sym(":"), sym(";"),
+        sym(","), sym(":="), lit("5"), kw("TRUE"), sym("-"), sym("+"), sym("#"), sym("("), lit("'s'")]
+
+
+def impl_fbd(r):
+    if "ok" in r:
+        tr = debugtree.compact(debugtree.norm(debugtree.parse(r["ok"])))
+        got = gen_st.sx_fbd_of_library(tr)
+        return "OUTSIDE-NOTATION" if got is None else got
+    if "err" in r:
+        return "REJECTED"
+    return "CRASH:" + str(r.get("panic") or r.get("abort"))
+
+
+def check_fbd(run, info, n_valid, n_mutants, tag):
+    """the declaration parser model (Model/DeclParser.v with Model/StParser.v through parse_fbd_text) three ways on generated
+    function blocks with variable declaration blocks, and model vs parse_program on token-level mutants of them"""
+    rng = run.rng
+    valid = []
+    for i in range(n_valid):
+        vs, es, ss, lx = gen_st.fbd_body(rng, depth=rng.choice([1, 1, 2]))
+        valid.append(((vs, es, ss), gen_prog.render(lx, None)))
+        for _ in range(2):
+            valid.append(((vs, es, ss), gen_prog.render(lx, gen_prog.Spelling(rng, respell=True, nonascii=rng.random() < 0.3))))
+    mutants = []
+    for i in range(n_mutants):
+        vs, es, ss, lx = gen_st.fbd_body(rng, depth=1)
+        lx = list(lx)
+        nd = max(3, len([x for x in lx]) // 2)
+        for _ in range(rng.choice([1, 1, 2, 3])):
+            if len(lx) <= 3:
+                break
+            # most mutations fall into the declaration part (the front of the lexeme list)
+            j = rng.randrange(2, min(len(lx) - 1, nd + 2)) if rng.random() < 0.8 else rng.randrange(2, len(lx) - 1)
+            r = rng.random()
+            if r < 0.35:
+                del lx[j]
+            elif r < 0.6:
+                lx.insert(j, rng.choice(DVOC))
+            elif r < 0.8:
+                lx[j] = rng.choice(DVOC)
+            else:
+                lx.insert(j, lx[j])
+        mutants.append(gen_prog.render(lx, None))
+    texts = [t for _, t in valid] + mutants
+    res = vlib.run_impl([{"id": i, "op": "parse", "text": hexs(t)} for i, t in enumerate(texts)], run.workdir, per_case_timeout=30)
+    model = vlib.run_model([("fbd", i, [hexs(t)]) for i, t in enumerate(texts)], run.workdir) if info.get("extract_ok") else {}
+    stats = {"valid": 0, "mutant-accepted": 0, "mutant-rejected": 0, "model-scope": 0, "model-fuel": 0}
+    for i, t in enumerate(texts):
+        got = impl_fbd(res[i])
+        m = model.get(str(i))
+        mm = None
+        if m:
+            mm = tuple(m[1:4]) if m[0] == "parsed" and len(m) >= 4 else {"rejected": "REJECTED", "scope": "SCOPE", "fuel": "FUEL"}.get(m[0], m[0])
+        is_valid = i < len(valid)
+        run.count(("fbd", t), True, "declaration-model:" + ("valid" if is_valid else "mutant") + ":" + tag)
+        if isinstance(got, str) and got.startswith("CRASH"):
+            run.violation("impl-violates-property", "parse_program crashed on a function block with declarations: %s" % got, {"input": {"text": t}})
+            continue
+        if is_valid:
+            want = valid[i][0]
+            stats["valid"] += 1
+            if got != want:
+                run.violation("impl-violates-property", "function block %r is parsed as %s, it means %s" % (t[:140], str(got)[:240], str(want)[:240]),
+                              {"input": {"text": t}, "family": "declaration-model", "parsed": got, "means": want})
+                continue
+        else:
+            stats["mutant-accepted" if got != "REJECTED" else "mutant-rejected"] += 1
+        if mm is None:
+            continue
+        if mm == "FUEL":
+            stats["model-fuel"] += 1
+            run.violation("correspondence", "the declaration parser model ran out of fuel on %r" % t[:120], {"input": {"text": t}}, no_input=True)
+            continue
+        if mm == "SCOPE":
+            stats["model-scope"] += 1
+            if is_valid:
+                run.violation("correspondence", "the declaration parser model declares a text of its own sub-language outside its scope: %r" % t[:120],
+                              {"input": {"text": t}}, no_input=True)
+            continue
+        run.cov["traces_validated_against_impl"] += 1
+        if mm != got:
+            run.cov["disagreements_checked"] += 1
+            run.violation("correspondence", "declaration parser model and parse_program disagree on %r: model %s, parser %s" % (
+                t[:140], str(mm)[:200], str(got)[:200]), {"input": {"text": t}, "model": mm, "parser": got}, no_input=True)
+    return stats
